@@ -58,10 +58,10 @@ theorem registry_two_names_rejected (a b : Bytes) (x y : DV) (h : a ≠ b) : nod
 /-- Registry names are exact: nothing but the registered spelling is known (no case folding here). -/
 theorem registry_name_exact (name : Bytes) (body : DV)
     (h : name ∉ ["fifo.Group", "priority.Group", "url.Filter", "header.Filter", "querystring.Filter", "method.Filter",
-      "cookie.Filter", "verif.Probe"].map strBytes) : bodyNode name body = .unknown := by
+      "cookie.Filter", "verif.Probe", "port.Filter"].map strBytes) : bodyNode name body = .unknown := by
   simp only [List.map_cons, List.map_nil, List.mem_cons, List.not_mem_nil, or_false, not_or] at h
-  obtain ⟨h1, h2, h3, h4, h5, h6, h7, h8⟩ := h
-  simp [bodyNode, h1, h2, h3, h4, h5, h6, h7, h8]
+  obtain ⟨h1, h2, h3, h4, h5, h6, h7, h8, h9⟩ := h
+  simp [bodyNode, h1, h2, h3, h4, h5, h6, h7, h8, h9]
 
 /-! ## 3. Struct members: unknown, case-folded, wrong type -/
 
@@ -113,6 +113,18 @@ theorem null_bodies (ps : List Bytes) (mk : FilterSt → Cond) :
   refine ⟨by simp [fifoNode, decStruct, scopeOfSl, Sl.nil], by simp [prioNode, decStruct, scopeOfSl, Sl.nil], ?_, ?_⟩
   · simp [probeNode, decStruct, scopeOfSl, Sl.nil, capsOfStr, Caps.both]; decide
   · simp [filterNode, decStruct, rawNode, valid]
+
+/-- `port.Filter` has no else branch: an `"else"` member is just an unknown member. -/
+theorem port_filter_else_ignored (pre post : List (Bytes × DV)) (v : DV) (n1 n2 : Node) :
+    portNode (.obj (pre ++ (fElse, v) :: post) n1) = portNode (.obj (pre ++ post) n2) := by
+  unfold portNode
+  rw [unknown_member_ignored portFields portSet {} pre post fElse v n1 n2 (by decide)]
+
+/-- … and what it decodes to is a filter on the port condition without else. -/
+theorem port_filter_decodes (p : NumLit) (q : Int) (d : DV) (nd : Node) (hq : int64Of p = some q) :
+    portNode (.obj [(fPort, .num p), (fModifier, d)] nd) = .filter (.port q) none d.node none := by
+  have h : fieldIdx portFields fPort = some 2 ∧ fieldIdx portFields fModifier = some 0 := by decide
+  simp [portNode, decStruct, decMembers, h, portSet, decInt, hq, scopeOfSl, Sl.nil, rawNode]
 
 /-! ## 4. `null`, repeated keys, and what is already there -/
 
